@@ -20,7 +20,17 @@ func init() {
 func c13Scenario(provider, kinds string, serve bool, bound int) e3Scenario {
 	name := fmt.Sprintf("%s/%s/serve=%v", provider, kinds, serve)
 	return e3Scenario{Name: name, Bound: bound, New: func() *e3Inst {
-		led := newLedger(newProvider(provider))
+		// the provider is constructed under the scheduler too: a constructor that blocks (it fills
+		// its caches through channel sends) is a verdict, not a hang
+		var prov restful.CompressorProvider
+		cx := vsched.RunOnce([]vsched.Body{{Name: "construct-provider", Run: func() { prov = newProvider(provider) }}}, nil, false, 0)
+		if cx.Deadlock || prov == nil {
+			stuck := strings.Join(cx.Stuck, "; ")
+			return &e3Inst{Check: func(*vsched.Execution) []e3Issue {
+				return []e3Issue{{"blocked", "constructing the provider " + provider + " blocks: " + stuck}}
+			}, Outcome: func() string { return "provider construction blocks" }}
+		}
+		led := newLedger(prov)
 		restful.SetCompressorProvider(led)
 		closeErrs := map[string]error{}
 		c := c13Container(closeErrs)
